@@ -119,6 +119,28 @@ func init() {
 			e.facts = append(e.facts, fact{Module: "C02Facts", Kind: "callsite", Name: s.fn, Value: map[string]interface{}{"cond": s.cond, "arg": s.arg, "guards": s.guards}, Pos: fmt.Sprintf("consensus/state.go:%d", s.line)})
 		}
 		sb.WriteString("]\n")
+		// the checks validateBlock makes, in source order: every if-condition and every Verify* / Validate* call with its receiver
+		vfd, err := e.funcDecl("consensus/validation.go", "", "validateBlock")
+		if err != nil {
+			return "", err
+		}
+		var checks []string
+		ast.Inspect(vfd.Body, func(x ast.Node) bool {
+			switch n := x.(type) {
+			case *ast.IfStmt:
+				checks = append(checks, "if "+src(e, n.Cond))
+			case *ast.CallExpr:
+				if sel, ok := n.Fun.(*ast.SelectorExpr); ok && (strings.HasPrefix(sel.Sel.Name, "Verify") || strings.HasPrefix(sel.Sel.Name, "Validate")) {
+					checks = append(checks, "call "+src(e, n))
+				} else if id, ok := n.Fun.(*ast.Ident); ok && (strings.HasPrefix(id.Name, "Verify") || strings.HasPrefix(id.Name, "Validate")) {
+					checks = append(checks, "call "+src(e, n))
+				}
+			}
+			return true
+		})
+		sb.WriteString("\n/-- validateBlock: every condition and every Verify*/Validate* call, in source order -/\n")
+		sb.WriteString("def validateBlockChecks : List String := " + c02StrList(checks) + "\n")
+		e.facts = append(e.facts, fact{Module: "C02Facts", Kind: "guards", Name: "validateBlock", Value: checks, Pos: e.pos(vfd)})
 		return sb.String(), nil
 	})
 }
